@@ -22,6 +22,7 @@ type instrMode int
 
 const (
 	modeShim instrMode = iota // only sync.{Mutex,RWMutex,Pool} -> simrt
+	modeQuiet                 // shim only, sync.Pool -> simrt.QuietPool (seeded, but no preemption point per Get/Put: per-instruction pools)
 	modeSync                  // + yields before statements that touch sync/atomic/pools
 	modeAll                   // + yields before every statement
 )
@@ -49,7 +50,7 @@ var instrList = []instrFile{
 	{"internal/decoder/optdec/decoder.go", modeSync},
 	{"internal/decoder/optdec/native.go", modeSync},
 	{"internal/optcaching/fcache.go", modeSync},
-	{"internal/jit/backend.go", modeSync},
+	{"internal/jit/backend.go", modeQuiet},
 	{"loader/register.go", modeAll},
 	{"loader/loader_latest.go", modeAll},
 	{"ast/node.go", modeAll},
@@ -59,6 +60,11 @@ var instrList = []instrFile{
 	{"ast/buffer.go", modeAll},
 	{"ast/iterator.go", modeAll},
 	{"ast/api.go", modeAll},
+}
+
+// entryOnly: functions that get a single yield at entry (file:func).
+var entryOnly = map[string]bool{
+	"internal/caching/pcache.go:copy": true,
 }
 
 type edit struct {
@@ -143,12 +149,16 @@ func (in *instrumenter) instrument(f instrFile) error {
 		}
 		switch se.Sel.Name {
 		case "Mutex", "RWMutex", "Pool":
-			add(off(id.Pos()), len("sync"), "simrt")
+			if se.Sel.Name == "Pool" && f.Mode == modeQuiet {
+				add(off(id.Pos()), len("sync.Pool"), "simrt.QuietPool")
+			} else {
+				add(off(id.Pos()), len("sync"), "simrt")
+			}
 		}
 		return true
 	})
 	// yields
-	if f.Mode != modeShim {
+	if f.Mode != modeShim && f.Mode != modeQuiet {
 		touches := func(s ast.Stmt) bool {
 			if f.Mode == modeAll {
 				return true
@@ -204,6 +214,13 @@ func (in *instrumenter) instrument(f instrFile) error {
 				continue
 			}
 			if hasDirective(fd.Doc, "nosplit", "norace", "nowritebarrier", "systemstack") {
+				continue
+			}
+			if entryOnly[f.Rel+":"+fd.Name.Name] {
+				// bulk-copy loops: one preemption point at entry instead of one per element
+				if len(fd.Body.List) > 0 {
+					doList(fd.Body.List[:1])
+				}
 				continue
 			}
 			walkBody(fd.Body)
